@@ -13,8 +13,8 @@ ASSUMPTIONS = ["reference serialiser vf/ref/sighash.py (self-tested against the 
 NSHARDS = {"quick": 32, "thorough": 64}
 BUDGET_S = {"quick": 200, "thorough": 1800}
 MIN_HITS = {
-    'quick': {"flag_01": 475, "flag_02": 459, "flag_03": 448, "flag_81": 437, "flag_82": 455, "flag_83": 446, "idx>=1": 1471, "nonpalindromic_seq": 2664, "sign": 163, "subscript>=65536": 6, "single_without_output": 310, "subscript_has_ab_byte": 1003},
-    'thorough': {"flag_01": 183307, "flag_03": 183078, "flag_83": 183194, "idx>=1": 566367, "nonpalindromic_seq": 1084120, "sign": 23040, "subscript>=65536": 7},
+    'quick': {"flag_01": 481, "flag_02": 465, "flag_03": 457, "flag_81": 446, "flag_82": 463, "flag_83": 454, "idx>=1": 1463, "nonpalindromic_seq": 2709, "sign": 163, "subscript>=65536": 6, "single_without_output": 309, "subscript_has_ab_byte": 1013},
+    'thorough': {"flag_01": 688267, "flag_03": 687865, "flag_83": 688089, "idx>=1": 2125916, "nonpalindromic_seq": 4070936, "sign": 96003, "subscript>=65536": 7},
 }
 
 
